@@ -197,7 +197,11 @@ def _run(prop, tier):
             status = res.get("inconclusive")
 
     # violations -> replay files (deduplicated by signature)
-    rdir = VERIF / "replays" / prop
+    # a run against a modified copy of the repository (tools/seeded.py, tools/runmut.py) keeps its files apart
+    outroot = __import__("pathlib").Path(os.environ["VERIF_OUT"]) if os.environ.get("VERIF_OUT") else VERIF
+    rdir = outroot / "replays" / prop
+    if rdir.is_dir():
+        shutil.rmtree(rdir, ignore_errors=True)  # replays of earlier runs would read as this run's
     vio_lines = []
     seen_sig = Counter()
     for v in agg["violations"]:
@@ -239,8 +243,8 @@ def _run(prop, tier):
         cov["anchor_coverage_probe"] = dict(error=repr(e))
     cov.update(extra)
     ev = dict(property_id=prop, tier=tier, seed=seed, level=getattr(mod, "LEVEL", "exploration"), coverage=jsonable(cov), assumptions=getattr(mod, "ASSUMPTIONS", []), wall_s=round(wall, 2), violations=len(agg["violations"]))
-    edir = VERIF / "evidence"
-    edir.mkdir(exist_ok=True)
+    edir = outroot / "evidence"
+    edir.mkdir(parents=True, exist_ok=True)
     (edir / f"{prop}.json").write_text(json.dumps(ev, indent=1))
 
     print(f"[{prop} {tier} seed={seed}] evaluations={agg['evaluations']} distinct_nontrivial={len(agg['keys'])} verdicts={dict(agg['verdicts'])} wall={wall:.1f}s")
